@@ -51,7 +51,8 @@ def build():
     common(U)
     U.struct(CA, 'CertAuth', derive=[])
     U.struct(CH, 'ChildDetails', derive=[])
-    U.enum(EV, 'CertAuthEvent', keep=['ChildAdded', 'ChildUpdatedResources', 'ChildUpdatedIdCert'], derive=[])
+    U.enum(EV, 'CertAuthEvent', keep=['ChildAdded', 'ChildUpdatedResources', 'ChildUpdatedIdCert', 'ChildUpdatedResourceClassNameMapping'], derive=[])
+    U.struct('src/api/admin.rs', 'ResourceClassNameMapping', derive=[])
     U.add('''
 /// ASSUMED: `!=` on identity certificates is value (in)equality (derived PartialEq in krill)
 impl vstd::std_specs::cmp::PartialEqSpecImpl for IdCertInfo {
@@ -60,8 +61,10 @@ impl vstd::std_specs::cmp::PartialEqSpecImpl for IdCertInfo {
 }
 pub assume_specification [<IdCertInfo as PartialEq>::eq] (a: &IdCertInfo, b: &IdCertInfo) -> (r: bool);
 ''')
-    U.enum(ERR, 'Error', keep=['CaChildMustHaveResources', 'CaChildExtraResources', 'CaChildDuplicate', 'CaChildUnknown'], derive=[])
+    U.enum(ERR, 'Error', keep=['CaChildMustHaveResources', 'CaChildExtraResources', 'CaChildDuplicate', 'CaChildUnknown', 'Custom'], derive=[])
+    U.add('/// the keys the child has in use under a class of this CA (ChildDetails::issued, verified in unit c05_allres)\npub uninterp spec fn child_keys(c: ChildDetails, rcn: ResourceClassName) -> Seq<KeyIdentifier>;')
     km = 'obeys_key_model::<ChildHandle>()'
+    U.impl('impl ChildDetails', [U.fn(CH, 'ChildDetails', 'issued', external_body=True, ensures=[('verified_in_unit_c05_allres', 'r@ == child_keys(*self, *parent_rcn)')])])
     U.impl('impl CertAuth', [
         U.fn(CA, 'CertAuth', 'all_resources', external_body=True, ensures=[('is_all_res', 'r == all_res(*self)')]),
         U.fn(CA, 'CertAuth', 'has_child', requires=[('key_model', km)], ensures=[('iff_known', 'r == self.children@.contains_key(*child_handle)')]),
@@ -76,6 +79,13 @@ pub assume_specification [<IdCertInfo as PartialEq>::eq] (a: &IdCertInfo, b: &Id
             ('replayable_names_only_a_known_child', 'r is Ok ==> self.children@.contains_key(*child_handle)'),
             ('event_or_noop', '''r is Ok ==> (if rs_is_empty(rs_difference(resources, self.children@[*child_handle].resources)) { r->Ok_0@.len() == 0 }
                 else { r->Ok_0@ == seq![CertAuthEvent::ChildUpdatedResources { child: *child_handle, resources }] })''')]),
+        # the name under which a child knows one of our classes can only be set while the child holds no certificate in that class
+        # (a certificate issued under the old name could otherwise never be revoked by the child: the revocation request names the class)
+        U.fn(CA, 'CertAuth', 'process_child_resource_class_name_mapping', requires=[('key_model', km + ' && obeys_key_model::<ResourceClassName>()')], ensures=[
+            ('refused_for_an_unknown_child_or_a_class_the_child_holds_certificates_in', '''(r is Ok) <==> (self.children@.contains_key(child_handle)
+                    && child_keys(self.children@[child_handle], mapping.name_in_parent).len() == 0)'''),
+            ('recorded_for_that_child_and_class', '''r is Ok ==> r->Ok_0@.len() == 1 && r->Ok_0@[0] == (CertAuthEvent::ChildUpdatedResourceClassNameMapping {
+                    child: child_handle, name_in_parent: mapping.name_in_parent, name_for_child: mapping.name_for_child })''')]),
         # C12: a new identity certificate for a child is recorded for THAT child whenever it differs from the registered one (so that
         # from then on requests are validated against it, units c06_apply / c12_rfc6492); an unknown child is refused
         U.fn(CA, 'CertAuth', 'process_child_update_id_cert', requires=[('key_model', km)], ensures=[
